@@ -478,8 +478,34 @@ let () = render_hook := (fun ty v ->
        | None -> render_c11 ty v)
   | _ -> render_c11 ty v)
 
-let () = run_protocol (fun case0 impl ->
+let one_case (case0 : string) (impl : string) : string * bool * bool =
   if schema_missing case0 then ("SKIP schema not built in this tier", true, true)
   else with_schema case0 (fun c case ->
     let m = run_c11 c case in
-    (m, oracle case impl, oracle case m)))
+    (m, oracle case impl, oracle case m))
+
+(* " || "-separated pieces *)
+let split_seq (r : string) : string list =
+  let out = ref [] and cur = Buffer.create 256 in
+  let n = String.length r in
+  let k = ref 0 in
+  while !k < n do
+    if !k + 4 <= n && String.sub r !k 4 = " || " then (out := Buffer.contents cur :: !out; Buffer.clear cur; k := !k + 4)
+    else (Buffer.add_char cur r.[!k]; incr k)
+  done;
+  List.rev (Buffer.contents cur :: !out)
+
+(* SEQ <case> || <case> ...: the model is a function of the context and the message (no state between
+   operations): each operation is run on its own; the oracle must hold of every one *)
+let () = run_protocol (fun case0 impl ->
+  if String.length case0 > 4 && String.sub case0 0 4 = "SEQ " then begin
+    let subs = split_seq (String.sub case0 4 (String.length case0 - 4)) in
+    let impls = split_seq impl in
+    let same_len = List.length subs = List.length impls in
+    let rs = List.mapi (fun k sc ->
+      let ir = if same_len then List.nth impls k else "" in
+      one_case sc ir) subs in
+    (String.concat " || " (List.map (fun (m, _, _) -> m) rs),
+     same_len && List.for_all (fun (_, oi, _) -> oi) rs,
+     List.for_all (fun (_, _, om) -> om) rs)
+  end else one_case case0 impl)
